@@ -197,4 +197,17 @@ CHECKS = {
   'note': TB,
   'technique': 'Coq grammar/balance theorems over the emission model + translator float-guard facts + validity harness over generated types with unrepresentable values',
  },
+ 'C08': {
+  'text': ("Proof (Coq): the frame arithmetic of the interpreters with the constants TRANSLATED from linkRecursiveCode, copyToInterfaceOpcode, setTotalLengthToInterfaceOp "
+           "and the OpInterface/OpRecursive cases of vm.go on every run: for EVERY sequence of nested recursive calls and interface values and all code lengths, each frame's "
+           "code (including the three slots of its end opcode) stays inside the slots reserved for it and each nested frame starts behind its parent's; the two repaired "
+           "defects (saved base indent outside the frame; interface frame inside a recursive frame) are proved as refutation witnesses for the old constants. Observed: "
+           "recursive, mutually recursive and interface-bearing shapes with every field kind before and after the recursive member, nesting depth 0..2000, DAG-shaped values, "
+           "cycles through pointers, maps, slices, arrays and interfaces (must give an error), generated types, marshal callbacks that allocate, force GC and grow the stack, "
+           "the four interpreters, each compared with encoding/json, in a child process (crash/hang attributed to the case) and again in a child built with -d=checkptr. "
+           "Instead of the hook named in the property (bounds assertions in load/store) the frame theorem plus the checkptr build are used. Partial: cycle detection "
+           "(SeenPtr) and GC interaction are observed, not modelled; CurLen is modelled as the full length of the enclosing code."),
+  'note': TB,
+  'technique': 'Coq frame-separation theorem over translated interpreter constants + deep/recursive/cyclic/GC-callback harness in normal and checkptr child processes',
+ },
 }
